@@ -14,7 +14,7 @@ git apply $W/../SEED-$id-tmp/patch.diff || { echo "PATCH DOES NOT APPLY"; mv $W/
 echo -n "   build with change: "; go build ./... 2>&1 | tail -1; echo ok
 echo -n "   demo with change: "; go test -vet=off -count=1 -run "$rx" ./$demodir/ 2>&1 | grep -E "^(--- FAIL|FAIL|ok)" | head -2 | tr '\n' ' '; echo
 rm -f $demodir/zz_seed_demo*_test.go
-echo "   existing tests with change ($pkgs):"; go test -vet=off -count=1 $pkgs 2>&1 | grep -E "^(--- FAIL|\s+--- FAIL|FAIL|ok)" | grep -v "no test files" | cut -c1-110 | sed 's/^/      /'
+echo "   existing tests with change ($pkgs):"; unshare -rn bash -c "ip link set lo up; go test -vet=off -count=1 $pkgs 2>&1" | grep -E "^(--- FAIL|\s+--- FAIL|FAIL|ok)" | grep -v "no test files" | cut -c1-110 | sed 's/^/      /'
 git checkout -q -- .
 # the checks are run against the scratch worktree with the patch applied (never against /repo), in a work directory of their own
 git apply $W/../SEED-$id-tmp/patch.diff
